@@ -41,6 +41,7 @@ class Inconclusive(Exception):
 
 
 CUR: "Harness | None" = None     # harness currently driving the shims
+SCHED = None                     # vf.sched.Sched instance when an execution is under the line-gated scheduler
 _installed = False
 HLOCK = real_threading.RLock()   # guards all monitor / harness state
 BASE_TIME = 1_700_000_000
@@ -91,6 +92,21 @@ class SQueue(real_queue.Queue):
         if h is None:
             return super().get(block, timeout)
         me = real_threading.get_ident()
+        sc = SCHED
+        if block and sc is not None and sc.is_controlled():
+            # under the line-gated scheduler an empty queue is "blocked until put", never a real wait
+            with HLOCK:
+                h.busy.pop(me, None)
+            while len(self.queue) == 0:
+                if not sc.block_until(lambda: len(self.queue) > 0, "queue-empty"):
+                    break
+                if not sc.active:
+                    break
+            if len(self.queue) > 0:
+                item = super().get(False)
+                with HLOCK:
+                    h.activity += 1
+                return item
         if block:
             with HLOCK:
                 h.busy.pop(me, None)
@@ -615,21 +631,51 @@ class Harness:
                 raise ValueError("file descriptor cannot be a negative integer (-1)")
         if real_threading.current_thread() is not getattr(self.node, "_connection_thread", None):
             return self._real_select(r, w, x, 0)
+        sc = SCHED
+        if sc is not None and sc.is_controlled():
+            return self._sched_select(sc, r, w, x)
         with self.cv:
             self.parked = True
             self.cv.notify_all()
+            handed_over = False
             while self.permits <= 0 and not self.free_running:
-                self.cv.wait(1.0)
+                self.cv.wait(0.05)
                 if self.torn_down:
                     break
-            if not self.free_running:
-                self.permits -= 1
-            self.parked = False
+                sc = SCHED
+                if sc is not None and sc.is_controlled():
+                    handed_over = True
+                    break
+            if handed_over:
+                self.parked = False
+            else:
+                if not self.free_running:
+                    self.permits -= 1
+                self.parked = False
+        if handed_over:
+            return self._sched_select(sc, r, w, x)
         res = self._real_select(r, w, x, self.free_timeout if self.free_running else 0)
         self.last_ready = (len(res[0]), len(res[1]))
         if self.last_ready != (0, 0):
             with HLOCK:
                 self.activity += 1
+        self.ticks += 1
+        return res
+
+    def _sched_select(self, sc, r, w, x):
+        """select() under the line-gated scheduler: blocked until something is ready, then one real poll."""
+        def ready():
+            a, b, _ = self._real_select(r, w, x, 0)
+            return bool(a or b)
+        first = True       # select() is a scheduling point even when something is ready already
+        while sc.active and (first or not ready()):
+            first = False
+            if not sc.block_until(ready, "select"):
+                break
+        if not sc.active:
+            return [], [], []
+        res = self._real_select(r, w, x, 0)
+        self.last_ready = (len(res[0]), len(res[1]))
         self.ticks += 1
         return res
 
